@@ -194,4 +194,39 @@ theorem registry_scan_unfixed_witness :
     Impl.exitQueueScanUnfixed 5 [5, 5, 5, 7] = (7, 4) ∧ Impl.exitQueueScan 5 [5, 5, 5, 7] = (7, 1) := by
   decide
 
+/-! ## Registry updates: the activation queue -/
+
+/-- `activation_prefix_eq`: zrnt sorts the candidates whose eligibility epoch is `≤ current` by
+`(activation_eligibility_epoch, index)`, takes `limit` (the churn limit, from deneb the activation churn
+limit) and stops at the first one above the finalized epoch; the spec filters by `≤ finalized`, sorts and
+takes `limit`. The dequeued index lists are equal whenever `finalized.epoch ≤ current` (all registries,
+all limits). -/
+theorem activation_prefix_eq (cfg : Config) (vals : List Validator) (cur fin limit : Nat) (hfin : fin ≤ cur) :
+    (((Impl.computeRegistryProcessData cfg vals cur).indicesToMaybeActivate.take limit).takeWhile
+        fun index => decide ((vals.getD index default).activation_eligibility_epoch ≤ fin)) =
+      (activation_queue_pure fin vals).take limit :=
+  Lemmas.activation_prefix vals cur fin limit hfin
+
+/-- … hence the activations written by `ProcessEpochRegistryUpdates` are those of the spec's second loop. -/
+theorem activations_eq (cfg : Config) (vals w : List Validator) (cur fin limit : Nat) (hfin : fin ≤ cur) :
+    Impl.processActivations cfg cur fin limit vals (Impl.computeRegistryProcessData cfg vals cur).indicesToMaybeActivate w =
+      ((activation_queue_pure fin vals).take limit).foldl (fun w index =>
+        match w[index]? with
+        | none => w
+        | some validator => w.set index { validator with activation_epoch := compute_activation_exit_epoch cfg cur }) w := by
+  unfold Impl.processActivations
+  simp only []
+  rw [activation_prefix_eq cfg vals cur fin limit hfin]
+  congr 1
+  funext w index
+  cases w[index]? <;> rfl
+
+/-- non-vacuity: a finalized epoch not after the current one -/
+example : ∃ fin cur : Nat, fin ≤ cur := ⟨3, 5, by decide⟩
+
+/-- deneb: the activation limit is `min(MAX_PER_EPOCH_ACTIVATION_CHURN_LIMIT, churn limit)` in both -/
+theorem deneb_activation_limit_eq (cfg : Config) (vals : List Validator) (cur : Nat) :
+    min cfg.MAX_PER_EPOCH_ACTIVATION_CHURN_LIMIT (Impl.computeRegistryProcessData cfg vals cur).churnLimit =
+      min cfg.MAX_PER_EPOCH_ACTIVATION_CHURN_LIMIT (churn_limit_of cfg vals cur) := rfl
+
 end Zrnt.Proofs.C02
